@@ -3,6 +3,7 @@
 import math, itertools
 from fractions import Fraction
 from engine import Prop, fbits, bitsf, ratstr, parse_rat, tok_list, untok, close, err_kind
+from props import c09sess as SS
 
 V_LOG = [0, -1, -2]        # what P / Q return when the model is declared log=True: log-likelihoods, i.e. costs 0, 1, 2
 V_LIK = [0, 0.5, 1]        # likelihoods
@@ -137,6 +138,7 @@ class P(Prop):
         from tracklib.core.track import Track
         from tracklib.algo import dynamics
         self.Obs, self.ENU, self.ObsTime, self.Track, self.dyn = Obs, ENUCoords, ObsTime, Track, dynamics
+        self.runner = SS.Runner(Obs, ENUCoords, ObsTime, Track, dynamics)
 
     def run_hmm(self, n, Pt, Qt, log, via="ctor"):
         """decode through the public API; returns {"states": labels, "cost": recorded hmm_cost}"""
@@ -204,6 +206,10 @@ class P(Prop):
             yield case["n"], case["P"], case["Q"], case["log"], bool(case.get("exact"))
 
     def impl(self, case):
+        if case["kind"] == "sess":
+            if not SS.valid(case):
+                return {"err": "invalid-session"}
+            return self.runner.run(case)
         via = case.get("via", "ctor")
         outs = [self.run_config(n, Pt, Qt, log, via) for (n, Pt, Qt, log, ex) in self.items(case)]
         return {"items": outs}
@@ -222,6 +228,8 @@ class P(Prop):
                 "C09.decodeF log %s %s %s" % (ns, tok_list(map(fbits, lpf)), tok_list(map(fbits, lqf)))]
 
     def requests(self, case):
+        if case["kind"] == "sess":
+            return [SS.request(case, fbits, tok_list)]
         out = []
         for it in self.items(case):
             out += self.req_lines(*it)
@@ -243,6 +251,8 @@ class P(Prop):
         return {"states": [10 * k + l for k, l in enumerate(idx)], "cost": cost}
 
     def decode(self, case, replies):
+        if case["kind"] == "sess":
+            return SS.parse_reply(case, replies[0], bitsf, untok)
         outs, i = [], 0
         for (n, Pt, Qt, log, exact) in self.items(case):
             if log:
@@ -309,6 +319,8 @@ class P(Prop):
         return None
 
     def spec(self, case, impl_out):
+        if case["kind"] == "sess":
+            return SS.spec(case, impl_out)
         if "items" not in impl_out:
             return "harness: %s" % impl_out
         for i, (it, out) in enumerate(zip(self.items(case), impl_out["items"])):
@@ -345,6 +357,8 @@ class P(Prop):
         return None
 
     def compare(self, case, impl_out, model_out):
+        if case["kind"] == "sess":
+            return SS.compare(case, impl_out, model_out)
         if "items" not in impl_out:
             return "impl=%s" % impl_out
         for i, (it, oi, om) in enumerate(zip(self.items(case), impl_out["items"], model_out["items"])):
@@ -408,7 +422,7 @@ class P(Prop):
         log, exact = self.FLAVOURS[fl]
         Pt, Qt = self.rand_tables(rng, n, fl)
         return {"kind": "rand", "flavour": fl, "log": log, "exact": exact, "n": n, "P": Pt, "Q": Qt,
-                "via": rng.choice(["ctor", "ctor", "setter"])}
+                "via": rng.choice(["ctor", "ctor", "setter", "estimate-arg"])}
 
     def cases(self, rng, tier):
         out = []
@@ -440,6 +454,11 @@ class P(Prop):
             n = [5] * 8
             Pt, Qt = self.rand_tables(rng, n, fl)
             out.append({"kind": "rand", "flavour": fl, "log": log, "exact": exact, "n": n, "P": Pt, "Q": Qt})
+        # histories of calls (props/c09sess.py)
+        for _ in range(60000 if thorough else 4000):
+            out.append(SS.gen_session(rng))
+        for _ in range(400 if thorough else 30):
+            out.append(SS.gen_session(rng, big=True))
         return out
 
     def search_cases(self, rng):
@@ -454,21 +473,25 @@ class P(Prop):
                         out.append({"kind": "exh", "log": log, "n": n, "start": rng.randrange(0, total // BLOCK) * BLOCK, "count": BLOCK})
         for _ in range(10000):
             out.append(self.rand_case(rng, 8, 5, 3000))
+        for _ in range(20000):
+            out.append(SS.gen_session(rng))
         return out
 
     def nontrivial(self, case):
+        if case["kind"] == "sess":
+            return SS.nontrivial(case)
         n = case["n"]
         return len(n) >= 2 and all(nk >= 1 for nk in n) and math.prod(n) >= 2
 
     def describe(self, case):
+        if case["kind"] == "sess":
+            return SS.describe(case)
         n = case["n"]
         return {"kind": case["kind"], "T": len(n), "maxS": max(n) if n else 0, "values": ("log " if case["log"] else "lik ") + case.get("flavour", "3-set"),
                 "via": case.get("via", "ctor")}
 
     # ------------------------------------------------------------------ findings / shrinking
     def classify(self, case, impl_out, msg):
-        if case.get("via") == "estimate-arg" and case.get("log"):
-            return "log-flag-passed-to-estimate"
         return None
 
     def explicit(self, case, i):
@@ -477,6 +500,9 @@ class P(Prop):
         return {"kind": "one", "log": case["log"], "exact": case["log"], "n": case["n"], "P": Pt, "Q": Qt}
 
     def shrink(self, case):
+        if case["kind"] == "sess":
+            yield from SS.shrink(case)
+            return
         if case["kind"] == "exh":
             c = case["count"]
             if c == 1:
@@ -523,6 +549,8 @@ class P(Prop):
 
     def mutate(self, case, rng):
         out = []
+        if case["kind"] == "sess":
+            return SS.mutate(case, rng)
         if case["kind"] == "exh":
             bases = [self.explicit(case, case["start"] + rng.randrange(case["count"])) for _ in range(10)]
         else:
